@@ -124,6 +124,9 @@ pub fn spellings(i: &Ins) -> Vec<Spelling> {
         Ins::Jalr { rd, rs1, imm } => {
             v.push(sp("jalr", vec![R(*rd, Rd), R(*rs1, Rs1), I(*imm)], "base"));
             v.push(sp("jalr", vec![R(*rd, Rd), M(*imm, *rs1)], "jalr-mem-form"));
+            if *rd == RA && *imm == 0 {
+                v.push(sp("jalr", vec![R(*rs1, Rs1)], "jalr-one-operand"));
+            }
             if *rd == ZERO && *imm == 0 {
                 v.push(sp("jr", vec![R(*rs1, Rs1)], "jr"));
                 if *rs1 == RA {
@@ -170,6 +173,12 @@ pub fn fmt_imm(v: i32, radix: Radix, upper: bool) -> String {
         Radix::Char if (32..=126).contains(&v) && v != 39 && v != 92 && v != 34 => {
             format!("'{}'", char::from(v as u8))
         }
+        // escaped character literals
+        Radix::Char if v == 10 => "'\\n'".to_string(),
+        Radix::Char if v == 9 => "'\\t'".to_string(),
+        Radix::Char if v == 0 => "'\\0'".to_string(),
+        Radix::Char if v == 92 => "'\\\\'".to_string(),
+        Radix::Char if v == 39 => "'\\''".to_string(),
         Radix::Bin if v >= 0 => {
             if upper {
                 format!("0B{:b}", v)
@@ -334,7 +343,7 @@ fn reg_name(r: Reg, st: &Style, rng: &mut Rng) -> String {
 }
 
 fn pick_radix(v: i32, st: &Style, rng: &mut Rng) -> Radix {
-    if rng.chance(st.p_char) && (32..=126).contains(&v) {
+    if rng.chance(st.p_char) && ((32..=126).contains(&v) || v == 10 || v == 9 || v == 0) {
         Radix::Char
     } else if rng.chance(st.p_hex) {
         Radix::Hex
@@ -544,7 +553,19 @@ pub fn print(p: &Program, st: &Style, rng: &mut Rng) -> Printed {
                         lb.push(&format!(".space {nb}"));
                     }
                     Data::Asciz(s) => {
-                        lb.push(&format!(".asciz \"{s}\""));
+                        // the AST holds the real content; special characters are written as escapes
+                        let mut esc = String::new();
+                        for ch in s.chars() {
+                            match ch {
+                                '\n' => esc.push_str("\\n"),
+                                '\t' => esc.push_str("\\t"),
+                                '\0' => esc.push_str("\\0"),
+                                '\\' => esc.push_str("\\\\"),
+                                '"' => esc.push_str("\\\""),
+                                c => esc.push(c),
+                            }
+                        }
+                        lb.push(&format!(".asciz \"{esc}\""));
                     }
                 }
             }
